@@ -3,6 +3,7 @@ from ..runner import TestSpec, Outcome
 from ..terms import Leaf, show
 from .. import model, build, gen as G
 from ..snapshot import exact
+from . import edits
 
 ID = "C01"
 RULE = (
@@ -191,4 +192,5 @@ def tests(tier):
             fuzz={"thorough": 60000},
         ),
         TestSpec("type-twins", gen_twins, body, {"quick": 600, "thorough": 60000}, tape=256, fuzz={"thorough": 40000}),
+        edits.spec("filter", 1200, 100000),
     ]
